@@ -162,6 +162,18 @@ def run(ctx):
     for g in ("getSectionName", "getSectionType", "getSectionDefinition",
               "getSectionAttributes"):
         crosscheck(ctx, "C02.R6", SV + "." + g, REF, g, SV, g)
+    # ... and the name the matcher is created with is the lower-cased one
+    PCq = "ZConfig.cfgparser.ZConfigParser"
+    lf = m.lookup_method(PCq, "_normalize_case")
+    if lf is None:
+        run.soft_error("anchor vanished: %s._normalize_case" % PCq)
+    else:
+        crosscheck(ctx, "C02.R6", lf.qualname, "ref_cfgparser.py",
+                   "normalize_case", PCq, "section type and name are "
+                   "lower-cased (str.lower, not a wider folding)")
+    crosscheck(ctx, "C02.R6", PCq + ".start_section", "ref_cfgparser.py",
+               "start_section", PCq, "the normalised name reaches the matcher "
+               "in both spellings of a section")
     from rules.common import crosscheck_many
     crosscheck_many(ctx, "C02.R6", [
         (SV + ".getSectionMatcher", "getSectionMatcher", SV,
